@@ -29,13 +29,79 @@ fn ints(v: &Value) -> Vec<i64> {
     v.as_array().unwrap().iter().map(|x| x.as_i64().unwrap()).collect()
 }
 
+/// The three calls that make up almost every trace, parsed once (so that `rep` can make them
+/// millions of times without touching JSON).
+pub enum Quick {
+    Feed { id: i64, s: u8, d1: u8, d2: u8, imp: String },
+    Poll { id: i64, ch: u8 },
+    Reset { id: i64 },
+}
+
+impl Quick {
+    pub fn of(cmd: &Map<String, Value>) -> Quick {
+        let id = geti(cmd, "id");
+        match gets(cmd, "op", "") {
+            "feed" => {
+                let (s, d1, d2) = bytes_of(&cmd["m"]);
+                Quick::Feed { id, s, d1, d2, imp: gets(cmd, "f", "raw").to_string() }
+            }
+            "poll" => Quick::Poll { id, ch: geti(cmd, "ch") as u8 },
+            "reset" => Quick::Reset { id },
+            other => panic!("not a quick call: {other}"),
+        }
+    }
+}
+
+/// The event of a quick call: the command's own fields plus what was observed.
+fn event_quick(cmd: &Map<String, Value>, q: &Quick, r: &CallResult, flag: bool, snow: u64) -> Map<String, Value> {
+    let mut ev = cmd.clone();
+    match q {
+        Quick::Reset { .. } => {
+            put(&mut ev, "al", json!(r.allocs));
+            put(&mut ev, "pan", json!(r.panicked));
+            put(&mut ev, "eqn", json!(flag));
+        }
+        _ => {
+            record_call(&mut ev, r);
+            put(&mut ev, "eqp", json!(flag));
+            put(&mut ev, "now", json!(snow));
+        }
+    }
+    ev
+}
+
 pub struct World {
     pub insts: HashMap<i64, Inst>,
+    reps: u64,
 }
 
 impl World {
     pub fn new() -> World {
-        World { insts: HashMap::new() }
+        World { insts: HashMap::new(), reps: 0 }
+    }
+
+    /// Makes one feed / poll / reset call; returns what it returned, the equality observed through the
+    /// public PartialEq (feed, poll: scanner unchanged; reset: equal to a new scanner) and the clock.
+    fn exec_quick(&mut self, q: &Quick) -> (CallResult, bool, u64) {
+        match q {
+            Quick::Feed { id, s, d1, d2, imp } => {
+                let inst = self.insts.get_mut(id).expect("unknown instance");
+                let before = inst.sc;
+                let r = inst.feed(*s, *d1, *d2, imp);
+                (r, inst.sc == before, inst.snow)
+            }
+            Quick::Poll { id, ch } => {
+                let inst = self.insts.get_mut(id).expect("unknown instance");
+                let before = inst.sc;
+                let r = inst.poll(*ch);
+                (r, inst.sc == before, inst.snow)
+            }
+            Quick::Reset { id } => {
+                let inst = self.insts.get_mut(id).expect("unknown instance");
+                let r = inst.reset();
+                (r, inst.eq_new(), inst.snow)
+            }
+        }
     }
 
     /// Executes one command; pushes the resulting event(s) to `sink`.
@@ -55,6 +121,11 @@ impl World {
                     Some(mut inst) => {
                         if let Some(n) = cmd.get("now").and_then(|v| v.as_u64()) {
                             inst.now = n;
+                            inst.snow = n;
+                        }
+                        // "nowx": the real clock reading as a decimal string (beyond what TLC can read)
+                        if let Some(n) = cmd.get("nowx").and_then(|v| v.as_str()) {
+                            inst.now = n.parse().expect("nowx");
                         }
                         // observable: new() == default()  (for the polling scanner default() == new(0))
                         let other = Inst::new(kind, if via_default { to } else { 0 }, !via_default);
@@ -67,54 +138,78 @@ impl World {
                 put(&mut ev, "al", json!(al));
                 sink(ev);
             }
-            "feed" => {
-                let id = geti(cmd, "id");
-                let (s, d1, d2) = bytes_of(&cmd["m"]);
-                let imp = gets(cmd, "f", "raw").to_string();
-                let inst = self.insts.get_mut(&id).expect("unknown instance");
-                let before = inst.sc;
-                let r = inst.feed(s, d1, d2, &imp);
-                record_call(&mut ev, &r);
-                put(&mut ev, "eqp", json!(inst.sc == before));
-                put(&mut ev, "now", json!(inst.now));
-                sink(ev);
-            }
-            "poll" => {
-                let id = geti(cmd, "id");
-                let ch = geti(cmd, "ch") as u8;
-                let inst = self.insts.get_mut(&id).expect("unknown instance");
-                let before = inst.sc;
-                let r = inst.poll(ch);
-                record_call(&mut ev, &r);
-                put(&mut ev, "eqp", json!(inst.sc == before));
-                put(&mut ev, "now", json!(inst.now));
-                sink(ev);
+            "feed" | "poll" | "reset" => {
+                let q = Quick::of(cmd);
+                let (r, flag, snow) = self.exec_quick(&q);
+                sink(event_quick(cmd, &q, &r, flag, snow));
             }
             "tick" => {
                 let id = geti(cmd, "id");
+                // "dt": what the specification sees; "dtx" (decimal string): the real step when it is larger
                 let dt = geti(cmd, "dt") as u64;
+                let real = match cmd.get("dtx").and_then(|v| v.as_str()) {
+                    Some(x) => {
+                        let r: u64 = x.parse().expect("dtx");
+                        assert!(dt == r.min(SPEC_TICK_CAP), "dt must be the capped dtx");
+                        r
+                    }
+                    None => {
+                        assert!(dt <= SPEC_TICK_CAP, "large time steps need dtx");
+                        dt
+                    }
+                };
+                let go = |i: &mut Inst| {
+                    i.now = i.now.saturating_add(real);
+                    i.snow += dt;
+                };
                 if id < 0 {
                     for i in self.insts.values_mut() {
-                        i.now += dt;
+                        go(i);
                     }
                 } else {
-                    self.insts.get_mut(&id).expect("unknown instance").now += dt;
+                    go(self.insts.get_mut(&id).expect("unknown instance"));
                 }
                 sink(ev);
             }
-            "reset" => {
-                let id = geti(cmd, "id");
-                let inst = self.insts.get_mut(&id).expect("unknown instance");
-                let r = inst.reset();
-                put(&mut ev, "al", json!(r.allocs));
-                put(&mut ev, "pan", json!(r.panicked));
-                put(&mut ev, "eqn", json!(inst.eq_new()));
-                sink(ev);
+            // the same command n times; of a run of identical events only the first two and the last are
+            // logged, the rest is summarised by a "skip" event
+            "rep" => {
+                let n = geti(cmd, "n");
+                let inner = cmd["cmd"].as_object().expect("rep needs cmd").clone();
+                let id = geti(&inner, "id");
+                let q = Quick::of(&inner);
+                let mut prev: Option<(CallResult, bool)> = None;
+                let mut skipped = 0i64;
+                self.reps += 1;
+                let tag = json!(self.reps);      // marks the events that belong to this command
+                for i in 0..n {
+                    let (r, flag, snow) = self.exec_quick(&q);
+                    let same = prev.as_ref().map(|p| p.0.same_as(&r) && p.1 == flag).unwrap_or(false);
+                    if i < 2 || i == n - 1 || !same {
+                        if skipped > 0 {
+                            let mut sk = Map::new();
+                            put(&mut sk, "op", json!("skip"));
+                            put(&mut sk, "id", json!(id));
+                            put(&mut sk, "n", json!(skipped));
+                            put(&mut sk, "inrep", tag.clone());
+                            sink(sk);
+                            skipped = 0;
+                        }
+                        let mut logged = event_quick(&inner, &q, &r, flag, snow);
+                        put(&mut logged, "inrep", tag.clone());
+                        sink(logged);
+                    } else {
+                        skipped += 1;
+                    }
+                    prev = Some((r, flag));
+                }
             }
             "copy" => {
                 let id = geti(cmd, "id");
                 let to2 = geti(cmd, "to2");
-                let inst = *self.insts.get(&id).expect("unknown instance");
+                let src = self.insts.get(&id).expect("unknown instance");
+                // "via": "clone" goes through Clone::clone of the scanner type, otherwise the bitwise Copy
+                let inst = if gets(cmd, "via", "copy") == "clone" { src.cloned() } else { *src };
                 put(&mut ev, "eqc", json!(inst.sc == self.insts[&id].sc));
                 self.insts.insert(to2, inst);
                 sink(ev);
